@@ -173,6 +173,12 @@ def c18(tier, replay=None):
                 if dn == "bare" and not u: problems.append("recommends no delimiter although allow_unquoted = 0")
                 if dn in ("tsq", "tdq") and not t: problems.append("recommends triple quotes although allow_triple_quoted = 0")
                 if dn not in adm: problems.append("recommends %s which cannot present the string (admissible: %s)" % (dn, sorted(adm)))
+                # ... "at any position of a line within the length limit": the delimiters share the first and the last line
+                need = {"bare": st_["max"], "sq": st_["len"] + 2, "dq": st_["len"] + 2}.get(dn)
+                if dn in ("tsq", "tdq"):
+                    need = st_["len"] + 6 if single else max(st_["first"] + 3, st_["last"] + 3, st_["max"])
+                if need is not None and need > lim:
+                    problems.append("recommends %s, which needs a line of %d characters (limit %d)" % (dn, need, lim))
                 # simple forms whenever the string is a single line admitting them with room to spare
                 if single and st_["len"] <= lim - 2:
                     simple_ok = ("bare" in adm and u and not s.startswith(";") and s not in ("?", ".")) or "sq" in adm or "dq" in adm
